@@ -69,7 +69,7 @@ func init() {
 			{Name: "tags-std-marshal-direct", File: "tag.go", Find: "return marshalJSON(ts.Map())", Replace: "return json.Marshal(struct{ Tags map[string]string }{ts.Map()})", ExpectRule: "J5", ExpectConstruct: "codec@Tags.MarshalJSON"},
 			{Name: "members-custom-codec-direct", File: "relation.go", Find: "return marshalJSON([]Member(ms))", Replace: "return CustomJSONMarshaler.Marshal([]Member(ms))", ExpectRule: "J5", ExpectConstruct: "codec@Members.MarshalJSON"},
 			{Name: "helper-branches-swapped", File: "json.go", Find: "if CustomJSONUnmarshaler == nil {", Replace: "if CustomJSONUnmarshaler != nil {", ExpectRule: "J5", ExpectConstruct: "helper@unmarshalJSON"},
-		}, append(append([]core.Mutant{}, c05Mutants2...), c05TimeMutants...)...),
-		Benign: append(append(append([]core.Mutant{}, c05Benign...), c05Benign2...), c05TimeBenign...),
+		}, append(append(append([]core.Mutant{}, c05Mutants2...), c05TimeMutants...), c05J3Mutants...)...),
+		Benign: append(append(append(append([]core.Mutant{}, c05Benign...), c05Benign2...), c05TimeBenign...), c05J3Benign...),
 	})
 }
